@@ -139,7 +139,7 @@ def case_spec(c, proj, out, monitors=None):
     }
 
 
-def run_case(ctx, c, idx, monitors=None, timeout=240):
+def run_case(ctx, c, idx, monitors=None, timeout=400):
     """Run one pipeline for the case; returns {"case", "res", "proj", "out", "f1", "f1_path"} or None (inconclusive, reported)."""
     from vlib import core, sut_corpus
     from vlib.pyndriver import run_pipeline
@@ -199,7 +199,7 @@ def monitor_calls(res, monitor):
 # ---------------------------------------------------------------------------------------------------------------------
 # pytest in a fresh interpreter (C18)
 # ---------------------------------------------------------------------------------------------------------------------
-def run_pytest(test_file, cwd, workdir, timeout=180):
+def run_pytest(test_file, cwd, workdir, timeout=300):
     """Returns {"rc", "stdout", "tests": [{"name", "outcome", "message", "text"}], "timeout"}; outcome in
     passed / failed / error / xfailed / skipped."""
     import xml.etree.ElementTree as ET
